@@ -215,6 +215,8 @@ def run(ctx):
         c, r = cases[tid], results[tid]
         d = {"call": "DateDataParser(languages=[%r], settings=%r).get_date_data(%r, date_formats=[%r])" % (c["lang"], c["settings"], c["s"], c["fmt"])}
         if kind == "abs":
+            if any((c["lang"], w) in known for w in c.get("words", [])):
+                continue          # the shadowed names of the C05 findings: the heuristic fallback's answer, not the format machine's
             ctx.note_drift("Formats", {"case": d, "model": exp, "observed": r["out"]})
             continue
         fids = [known[(c["lang"], w)] for w in c.get("words", []) if (c["lang"], w) in known]
